@@ -235,6 +235,29 @@ def glm_lines(t, lm, order, degree, pa, frag):
     return out
 
 
+def lm_topo_measure(lm, t, n):
+    """the topological L-Measure functions of the analyser `lm` on the tree `t`, at every node / branch"""
+    res = {}
+    with warnings.catch_warnings():
+        warnings.simplefilter("ignore")
+        try:
+            res["lm"] = {"n_stems": int(lm.n_stems(t)), "n_bifs": int(lm.n_bifs(t)), "n_branch": int(lm.n_branch(t)), "n_tips": int(lm.n_tips(t))}
+        except ValueError as e:
+            res["lm"] = None
+            res["lm_exc"] = str(e)[:40]
+            res["lm_rest"] = [int(lm.n_bifs(t)), int(lm.n_branch(t)), int(lm.n_tips(t))]
+        res["order"] = [int(lm.branch_order(t.node(i))) for i in range(n)]
+        res["degree"] = [int(lm.terminal_degree(t.node(i))) for i in range(n)]
+        res["pa"] = {}
+        for i in range(n):
+            try:
+                res["pa"][str(i)] = float(lm.partition_asymmetry(t.node(i)))
+            except AssertionError:
+                res["pa"][str(i)] = "E"
+        res["frag"] = [int(lm.fragmentation(b)) for b in t.get_branches()]
+    return res
+
+
 class LmTopo(Suite):
     """the topological L-Measure functions on trees of every shape and numbering (parents may follow their children), on every small tree
     exhaustively, at every node; the counts also on trees whose root is not typed as soma (`Tree.soma` refuses)"""
@@ -262,26 +285,7 @@ class LmTopo(Suite):
 
         n = case["n"]
         t = gen.make_tree(dict(case, xyz=[[float(i), float(i * i % 7), float(i % 3)] for i in range(n)], r=[1.0] * n))
-        lm = LMeasure()
-        res = {}
-        with warnings.catch_warnings():
-            warnings.simplefilter("ignore")
-            try:
-                res["lm"] = {"n_stems": int(lm.n_stems(t)), "n_bifs": int(lm.n_bifs(t)), "n_branch": int(lm.n_branch(t)), "n_tips": int(lm.n_tips(t))}
-            except ValueError as e:
-                res["lm"] = None
-                res["lm_exc"] = str(e)[:40]
-                res["lm_rest"] = [int(lm.n_bifs(t)), int(lm.n_branch(t)), int(lm.n_tips(t))]
-            res["order"] = [int(lm.branch_order(t.node(i))) for i in range(n)]
-            res["degree"] = [int(lm.terminal_degree(t.node(i))) for i in range(n)]
-            res["pa"] = {}
-            for i in range(n):
-                try:
-                    res["pa"][str(i)] = float(lm.partition_asymmetry(t.node(i)))
-                except AssertionError:
-                    res["pa"][str(i)] = "E"
-            res["frag"] = [int(lm.fragmentation(b)) for b in t.get_branches()]
-        return res
+        return lm_topo_measure(LMeasure(), t, n)
 
     def lines(self, case, res):
         if "exc" in res:
@@ -2098,7 +2102,165 @@ class LmGeo(Suite):
         return case["n"] >= 3
 
 
-SUITES = [NodeFeat(), Features(), Angles(), Closed(), ShollNear(), Requests(), PopulationRows(), Sampled(), LmTopo(), LmGeo()]
+REUSE_SHAPES = ["chain", "stem", "star", "caterpillar", "binary", "random", "highdeg"]
+REUSE_MODES = ["released", "rebound", "kept", "revisit", "edited"]
+
+
+def _apply_edit(d, e):
+    """the tree description after the in-place edit `e` ({"node", "pid"}: the node hangs under another parent; {"node", "xyz"}: the node moves)"""
+    d = dict(d, pids=list(d["pids"]), xyz=[list(p) for p in d["xyz"]])
+    if "pid" in e:
+        d["pids"][e["node"]] = e["pid"]
+    else:
+        d["xyz"][e["node"]] = list(e["xyz"])
+    return d
+
+
+def _reuse_stages(case):
+    """the tree description each stage of the case measures"""
+    if case["mode"] == "edited":
+        ds = [case["trees"][0]]
+        for e in case["edits"]:
+            ds.append(_apply_edit(ds[-1], e))
+        return ds
+    return [case["trees"][k] for k in case["visit"]]
+
+
+class LmReuse(Suite):
+    """ONE LMeasure analyser asked about MORE THAN ONE tree: a stream of trees each released before / when the next one is built (the batch loop
+    `for f in files: t = read(f); lm.f(t)`), of equal or of different sizes; all trees kept alive; trees revisited in turn (A B A B); one tree edited in
+    place between the calls (a node hung under another parent / moved, through the public Node setters). Every answer must equal the definition
+    evaluated on the tree that is asked about AT THAT MOMENT: the topological functions at every node, path and Euclidean distance at every node."""
+    name = "c10.lmreuse"
+
+    def cases(self, rng, tier, widen):
+        out = []
+        big = tier == "thorough" or widen
+        for k in range(60 if big else 25):
+            mode = REUSE_MODES[k % len(REUSE_MODES)]
+            same = k % 2 == 0
+            n0 = rng.randint(3, 40 if big else 14)
+            if mode == "edited":
+                d = lattice_tree(rng, max(n0, 4), rng.choice(REUSE_SHAPES))
+                n, cur, edits = d["n"], d, []
+                for _ in range(rng.randint(2, 5)):
+                    i = rng.randrange(1, n)
+                    if rng.random() < 0.7:
+                        sub, grew = {i}, True
+                        while grew:
+                            grew = False
+                            for j, q in enumerate(cur["pids"]):
+                                if q in sub and j not in sub:
+                                    sub.add(j); grew = True
+                        cand = [j for j in range(n) if j not in sub and j != cur["pids"][i]]
+                        if not cand:
+                            continue
+                        e = {"node": i, "pid": rng.choice(cand)}
+                    else:
+                        e = {"node": i, "xyz": [float(rng.randint(-9, 9)) for _ in range(3)]}
+                    edits.append(e); cur = _apply_edit(cur, e)
+                out.append({"class": "one-analyser/edited-in-place", "mode": mode, "trees": [d], "visit": [0], "edits": edits})
+                continue
+            m = rng.randint(2, 4) if mode == "revisit" else rng.randint(4, 10)
+            trees = [lattice_tree(rng, n0 if same else rng.randint(2, 40 if big else 14), rng.choice(REUSE_SHAPES)) for _ in range(m)]
+            visit = list(range(m)) if mode != "revisit" else [rng.randrange(m) for _ in range(2 * m + 2)]
+            out.append({"class": f"one-analyser/{mode}/" + ("same-size" if same else "mixed-size"), "mode": mode, "trees": trees, "visit": visit, "edits": []})
+        return out
+
+    @staticmethod
+    def _measure(lm, t, n):
+        try:
+            res = lm_topo_measure(lm, t, n)
+            with warnings.catch_warnings(), np.errstate(all="ignore"):
+                warnings.simplefilter("ignore")
+                res["path_distance"] = [_lg_val(lambda: lm.path_distance(t.node(i))) for i in range(n)]
+                res["euc_distance"] = [_lg_val(lambda: lm.euc_distance(t.node(i))) for i in range(n)]
+            return res
+        except Exception as e:                                             # a finding of this stage; the later stages are still measured
+            return {"exc": type(e).__name__, "msg": str(e)[:200]}
+
+    def run(self, case):
+        from swcgeom.analysis.lmeasure import LMeasure
+
+        lm = LMeasure()
+        mode, out = case["mode"], []
+        if mode == "edited":
+            d = case["trees"][0]
+            t = gen.make_tree(d)
+            out.append(self._measure(lm, t, d["n"]))
+            for e in case["edits"]:
+                nd = t.node(e["node"])
+                if "pid" in e:
+                    nd.pid = e["pid"]
+                else:
+                    nd.x, nd.y, nd.z = e["xyz"]
+                out.append(self._measure(lm, t, d["n"]))
+        elif mode in ("kept", "revisit"):
+            ts = [gen.make_tree(d) for d in case["trees"]]
+            for k in case["visit"]:
+                out.append(self._measure(lm, ts[k], case["trees"][k]["n"]))
+        else:
+            t = None
+            for d in case["trees"]:
+                if mode == "released":
+                    t = None                                               # the previous tree is gone before the next one exists
+                t = gen.make_tree(d)                                       # "rebound": the previous tree goes when the name is bound again
+                out.append(self._measure(lm, t, d["n"]))
+        return {"stages": out}
+
+    def oracle(self, case, res):
+        try:
+            return self._oracle(case, res)
+        except Exception as e:                                             # a result of an unexpected form is a finding, never a crash
+            return [("lm-reuse-malformed", f"result of an unexpected form ({type(e).__name__}: {e}) for {self._say(case, 0)}")]
+
+    @staticmethod
+    def _say(case, j):
+        if case["mode"] == "edited":
+            return f"one LMeasure on a tree edited in place, after edits {case['edits'][:j]} of pids={case['trees'][0]['pids']}"
+        return (f"one LMeasure over a stream of trees ({case['mode']}), stage {j} = tree {case['visit'][j]} of sizes "
+                f"{[d['n'] for d in case['trees']]}")
+
+    def _oracle(self, case, res):
+        if "exc" in res:
+            return [("lm-reuse-raises", f"{res['exc']}: {res.get('msg')} for {self._say(case, 0)}")]
+        stages = _reuse_stages(case)
+        got = res.get("stages")
+        if not isinstance(got, list) or len(got) != len(stages):
+            return [("lm-reuse-malformed", f"{0 if not isinstance(got, list) else len(got)} answers for {len(stages)} stages ({self._say(case, 0)})")]
+        out, topo = [], LmTopo()
+        for j, (d, r) in enumerate(zip(stages, got)):
+            if not isinstance(r, dict) or "exc" in r:
+                out.append(("lm-reuse-raises", f"{r.get('exc') if isinstance(r, dict) else r}: {r.get('msg') if isinstance(r, dict) else ''} for {self._say(case, j)}, "
+                                               f"pids={d['pids']}"))
+                continue
+            out += [(k, f"{m} [{self._say(case, j)}]") for k, m in topo.oracle(d, r)]
+            P = np.array(d["xyz"], dtype=np.float64)
+            pids, n = d["pids"], d["n"]
+            dist = lambda a, b: float(np.linalg.norm(P[a] - P[b]))
+            def up(i):
+                s = 0.0
+                while pids[i] != -1:
+                    s += dist(i, pids[i]); i = pids[i]
+                return s
+            for key, what, want in (("lm-path-distance", "path_distance", [up(i) for i in range(n)]),
+                                    ("lm-euc-distance", "euc_distance", [dist(i, 0) for i in range(n)])):
+                g = r.get(what)
+                if (not isinstance(g, list) or len(g) != n
+                        or any(not isinstance(x, (int, float)) or abs(x - w) > 1e-5 * max(1.0, abs(w)) for x, w in zip(g, want))):
+                    out.append((key, f"{what} {g}, the definition gives {want} (pids={pids}) [{self._say(case, j)}]"))
+            if len(out) >= 3:
+                break
+        return out[:3]
+
+    def nontrivial(self, case, res):
+        return len(case["trees"]) + len(case["edits"]) >= 2
+
+    def klass(self, case, res):
+        return case.get("class", "-")
+
+
+SUITES = [NodeFeat(), Features(), Angles(), Closed(), ShollNear(), Requests(), PopulationRows(), Sampled(), LmTopo(), LmGeo(), LmReuse()]
 TECHNIQUE = ("Lean 4 theorems about the feature models (tree length = Σ edge lengths = Σ branch lengths via C08's edge partition; path length = path distance of its tip; "
              "counts, branch order, terminal degree, Sholl straddle count read off their definitions; partition asymmetry REGENERATED from lmeasure.py; zero-padded "
              "population rows) + differential correspondence (exact on integer-edge lattice trees) + an oracle computing every quantity from its definition in float64")
